@@ -147,10 +147,84 @@ Definition k_agree (c : kcase) : bool :=
   let n := length (k_scripts c) in
   zll_eqb (replay ksys k_cont' k_start' (k_obs (k_scripts c)) 400 n (kinit (k_scripts c)) (repeat 0 n) (k_order c)) (k_seen c).
 
-(* ---------- one cases file holds all four kinds ---------- *)
-Inductive case := CS (c : scase) | CD (c : dcase) | CC (c : ccase) | CK (c : kcase).
+(* ---------- Stack with wait-condition callbacks held at a gate ----------
+   The harness supplies PopOrWait's waitCondition: a callback with two gates, one before and one after it reads the flag
+   (a callback may be slow before or after it looks at its condition); a gate blocks when a hold is armed for it.
+   Events of a case (n = number of threads): e < n = arrival of thread e's next operation; n <= e < 2n = arm a (one-shot)
+   hold at the gate BEFORE the read for thread e-n; 2n <= e < 3n = open the gate thread e-2n is held at; 3n <= e = arm a
+   hold at the gate AFTER the read for thread e-3n.  While a thread is held
+   inside its callback the model simply does not step it; an arriving operation whose first step is not enabled (the
+   mutex is held by the thread inside the callback) stays pending and starts as soon as it can; while an operation is
+   blocked on the mutex further arrivals are skipped (h_blocked).  While somebody is held
+   the implementation cannot be observed through the mutex: the observation is [-1; parked on either condition; 0]. *)
+Record hsys := mkH { hk : ksys; harmed : list nat; harmedB : list nat; hheld : list nat; hpend : list nat }.
+
+Definition h_post (t : nat) (k' : ksys) (s : hsys) (pend : list nat) : hsys :=
+  match eget t (kev (kst k')) with
+  | Some None =>
+      if mem t (harmed s) then mkH k' (remove1 t (harmed s)) (harmedB s) (hheld s ++ [t]) pend
+      else mkH k' (harmed s) (harmedB s) (hheld s) pend
+  | Some (Some _) =>
+      if mem t (harmedB s) then mkH k' (harmed s) (remove1 t (harmedB s)) (hheld s ++ [t]) pend
+      else mkH k' (harmed s) (harmedB s) (hheld s) pend
+  | None => mkH k' (harmed s) (harmedB s) (hheld s) pend
+  end.
+
+Definition h_cont (s : hsys) (t : nat) : option (hsys * bool) :=
+  if mem t (hheld s) then None
+  else if kbusy t (kst (hk s)) then
+    match kstep_ev (hk s) t with Some (k', _) => Some (h_post t k' s (hpend s), false) | None => None end
+  else if mem t (hpend s) then
+    match kstep_ev (hk s) t with Some (k', _) => Some (h_post t k' s (remove1 t (hpend s)), false) | None => None end
+  else None.
+
+(* at a quiescent point: some operation is blocked on the stack's mutex (not started, in front of SignalShutdown's
+   critical section, or woken from a Wait) - then the harness lets nothing else arrive, so that at most one operation
+   queues on the mutex and the order in which the mutex is handed on does not matter *)
+Definition nonempty {A} (l : list A) : bool := match l with [] => false | _ => true end.
+Definition h_blocked (s : hsys) : bool :=
+  let m := kst (hk s) in nonempty (hpend s) || nonempty (kfs m) || nonempty (ak m) || nonempty (xk m).
+
+Definition h_start (n : nat) (s : hsys) (e : nat) : option (hsys * bool) :=
+  if e <? n then
+    if kbusy e (kst (hk s)) || h_blocked s then None else
+    match nth_error (kscr (hk s)) e with
+    | Some (_ :: _) =>
+        match kstep_ev (hk s) e with
+        | Some (k', _) => Some (h_post e k' s (hpend s), false)
+        | None => Some (mkH (hk s) (harmed s) (harmedB s) (hheld s) (hpend s ++ [e]), false)
+        end
+    | _ => None
+    end
+  else if e <? 2 * n then
+    let t := e - n in
+    if mem t (harmed s) then None else Some (mkH (hk s) (harmed s ++ [t]) (harmedB s) (hheld s) (hpend s), false)
+  else if e <? 3 * n then
+    let t := e - 2 * n in
+    if mem t (hheld s) then Some (mkH (hk s) (harmed s) (harmedB s) (remove1 t (hheld s)) (hpend s), false) else None
+  else
+    let t := e - 3 * n in
+    if mem t (harmedB s) then None else Some (mkH (hk s) (harmed s) (harmedB s ++ [t]) (hheld s) (hpend s), false).
+
+Definition h_obs (scripts : list (list kop)) (s : hsys) (pn : list nat) : list Z :=
+  let m := kst (hk s) in
+  (match hheld s with
+   | [] => [zn (length (els m)); zn (length (aq m)); zn (length (xq m))]
+   | _ => [(-1)%Z; zn (length (aq m) + length (xq m)); 0%Z]
+   end)
+  ++ done_counts 0 scripts (kscr (hk s)) (fun t => kbusy t m)
+  ++ flat_map pop_obs (rev (pops m)).
+
+Record hcase := mkKH { h_scripts : list (list kop); h_events : list nat; h_seen : list (list Z) }.
+Definition h_model (c : hcase) : list (list Z) :=
+  let n := length (h_scripts c) in
+  replay hsys h_cont (h_start n) (h_obs (h_scripts c)) 400 n (mkH (kinit (h_scripts c)) [] [] [] []) (repeat 0 n) (h_events c).
+Definition h_agree (c : hcase) : bool := zll_eqb (h_model c) (h_seen c).
+
+(* ---------- one cases file holds all kinds ---------- *)
+Inductive case := CS (c : scase) | CD (c : dcase) | CC (c : ccase) | CK (c : kcase) | CKH (c : hcase).
 Definition agree (c : case) : bool :=
-  match c with CS x => s_agree x | CD x => d_agree x | CC x => c_agree x | CK x => k_agree x end.
+  match c with CS x => s_agree x | CD x => d_agree x | CC x => c_agree x | CK x => k_agree x | CKH x => h_agree x end.
 
 Fixpoint mismatches_from (i : nat) (cs : list case) : list nat :=
   match cs with
